@@ -15,7 +15,7 @@ use vf_explore::{Report, Stats, Value, catch, cli, json, ncpu, par_map, quiet_pa
 /// The compiled programs of one family, ordered by family index (shards merged).
 fn table(prop: &str) -> Vec<&'static ProgEntry> {
     let mut v: Vec<&'static ProgEntry> = match prop {
-        "C24" => vfp_c24_0of2::TABLE.iter().chain(vfp_c24_1of2::TABLE.iter()).collect(),
+        "C24" => vfp_c24_0of3::TABLE.iter().chain(vfp_c24_1of3::TABLE.iter()).chain(vfp_c24_2of3::TABLE.iter()).collect(),
         "C25" => vfp_c25_0of3::TABLE.iter().chain(vfp_c25_1of3::TABLE.iter()).chain(vfp_c25_2of3::TABLE.iter()).collect(),
         "C26" => vfp_c26_0of1::TABLE.iter().collect(),
         _ => unreachable!(),
